@@ -25,7 +25,7 @@ Expected(r) ==
 RowOK(r) == Agree(r) /\ Expected(r) /\ Len(r.results) >= 2
 
 Ops == {"hash", "mac", "extract", "expand", "seal", "open", "kem_derive", "pk_validate", "hpke_seal_to",
-        "sign_verify", "sig_derive_public", "hpke_base", "hpke_psk", "hpke_setup"}
+        "sign_verify", "verify_edge", "sig_derive_public", "hpke_base", "hpke_psk", "hpke_setup"}
 Suites == {Rows[i].suite : i \in 1..Len(Rows)}
 \* vacuity: every operation was recorded for every common suite, with valid and invalid inputs where that applies
 Covered ==
